@@ -270,7 +270,10 @@ def g_ob(r):
 def g_case(c):
     a = c["ans"]
     if c["kind"] == "filter":
-        return f"CFilter {g_expr(c['expr'])} {g_job(c['job'])} {g_ob(a['whole'])} {glist(g_ob(x) for x in a['atoms'])}"
+        st = {None: "None", "DONE": "(Some Done)", "ERROR": "(Some Error)", "RUNNING": "(Some Running)"}.get(
+            a["state"], "None" if true_state(c["job"]) is not None else "(Some Done)")   # unknown name: forced mismatch
+        return (f"CFilter {g_expr(c['expr'])} {g_job(c['job'])} {st} {g_ob(a['whole'])} "
+                f"{glist(g_ob(x) for x in a['atoms'])}")
     if c["kind"] == "clean":
         flt = "None" if c["expr"] is None else f"(Some {g_expr(c['expr'])})"
         o = (f"{{| o_experiment := {g_str(c['experiment'] or '')}; o_filter := {flt}; "
@@ -334,6 +337,15 @@ def oracle(case, ans):
     if kind == "filter":
         j, e = case["job"], case["expr"]
         atom_ok = True
+        if ans["state"] != true_state(j):
+            atom_ok = False
+            if hides_live(j) and ans["state"] == "ERROR":
+                out.append(("C19:state-hides-live-process",
+                            "JobInformation.state is ERROR for a relaunched job whose process is alive"))
+            else:
+                out.append((f"C19:state-wrong:{true_state(j)}-reported-{ans['state']}",
+                            "JobInformation.state does not follow the marker files"))
+        impl_lookup = lambda v, jj: ans["state"] if v == "@state" else lookup(v, jj)   # noqa: E731
         for a, r in zip(atoms_of(e), ans["atoms"]):
             want = o_atom(a, j)
             if r["exc"] is not None:
@@ -341,10 +353,7 @@ def oracle(case, ans):
                 out.append((f"C19:filter:{a['k']}-raises", f"a `{a['k']}` test raises {r['exc']}"))
             elif r["v"] != want:
                 atom_ok = False
-                if hides_live(j) and r["v"] == o_atom(a, j, lambda v, jj: "ERROR" if v == "@state" else lookup(v, jj)):
-                    out.append(("C19:state-hides-live-process",
-                                "@state reports ERROR for a relaunched job whose process is alive"))
-                else:
+                if r["v"] != o_atom(a, j, impl_lookup):     # not explained by the state alone
                     out.append((f"C19:filter:{a['k']}-{str(r['v']).lower()}",
                                 f"a `{a['k']}` test answers {r['v']} where its documented meaning is {want}"))
         want = o_expr(e, j)
